@@ -7,7 +7,7 @@ from ..layouts import zoo
 from ..nd import prod
 from ..plans import zip_orders
 from ..pyfloat import FP, finite
-from .numcommon import mk_num_case, parse_num, model_ints, float_pool, fval, enc_vals
+from .numcommon import mk_num_case, mk_alias_case, alias_pairs, parse_num, model_ints, float_pool, fval, enc_vals
 
 BASE = {"sq_l2_dist": 0, "l1_dist": 1, "linf_dist": 2}
 DERIVED = ["l2_dist", "mean_abs_err", "mean_sq_err", "root_mean_sq_err", "peak_signal_to_noise_ratio"]
@@ -68,6 +68,34 @@ class C09(Prop):
                 # symmetric call and identical arguments
                 yield mk_num_case("sq_l2_dist", et, [(shape, b, lb), (shape, a, la)], "%d" % own, grp=grp + "s", own=own, out_et=et)
                 yield mk_num_case("l1_dist", et, [(shape, a, la), (shape, a, lb)], "%d" % own, grp=grp + "i", own=own, out_et=et)
+
+        # operands that ALIAS: two views into one allocation (identical, transposed, stepped against a
+        # prefix, reversed against forward). The routines take (&self, &other) and may not conclude
+        # anything from the operands sharing a first element or a buffer.
+        for rep in range(6 if tier == "quick" else 200):
+            for et in ETS:
+                nd = rng.range(1, 3)
+                side = rng.range(2, 4)
+                shape = [side] * nd if rng.chance(2, 3) else [rng.range(1, 4) for _ in range(nd)]
+                for (la, lb) in alias_pairs(shape, rng)[:3]:
+                    m = la.parent_len()
+                    if et in ("f64", "f32"):
+                        pbuf = float_pool(rng.below(2), m, rng, et)
+                    elif et == "big":
+                        pbuf = [rng.range(-3, 3) * 10 ** 25 + rng.range(-2, 2) for _ in range(m)]
+                    else:
+                        pbuf = [rng.range(-3, 3) for _ in range(m)]
+                    grp = "al%d%s%d" % (rep, et, rng.below(10 ** 9))
+                    for r in list(BASE) + COUNTS + ["l2_dist", "mean_abs_err", "mean_sq_err", "root_mean_sq_err"]:
+                        yield mk_alias_case(r, et, pbuf, la, lb, "0", grp=grp, own=0,
+                                            out_et=("f64" if r in DERIVED else et), maxv=None)
+                    if et in ("f64", "f32"):
+                        # == is not reflexive on NaN: an array compared with itself has n - #NaN equal positions
+                        nb = list(pbuf)
+                        for _ in range(rng.range(1, 2)):
+                            nb[rng.below(m)] = float("nan")
+                        for r in COUNTS:
+                            yield mk_alias_case(r, et, nb, la, lb, "0", grp=grp + "n", own=0, out_et=et, maxv=None)
 
     def parse(self, case):
         parse_num(case)
